@@ -13,6 +13,7 @@ import (
 	"strings"
 
 	ethcmn "github.com/ethereum/go-ethereum/common"
+	ethcrypto "github.com/ethereum/go-ethereum/crypto"
 	tmtypes "github.com/tendermint/tendermint/types"
 
 	"github.com/Oneledger/protocol/consensus"
@@ -131,6 +132,8 @@ type built struct {
 	skip   bool // degenerate in this state (nonce-1 at nonce 0, nothing to resubmit)
 	dup    bool
 	kills  bool   // the call hits the deployed kill contract
+	child  keys.Address // factory call: the address named in the call data (= the predicted address of the creation)
+	fact   int    // call of the deployed factory contract: 1 = the child's init code reverts, 2 = it returns
 	expect string // executes | fails-precheck (what the reference model demands where the statement decides it)
 }
 
@@ -143,6 +146,7 @@ type runner struct {
 	track    []keys.Address
 	store    keys.Address // deployed store contract (nil if none)
 	killc    keys.Address // deployed kill contract (nil if none / destroyed)
+	factory  keys.Address // deployed factory contract (nil if none)
 	last     *built       // EA's last executed OLVM transaction
 	seq      int
 	info     map[string]int64
@@ -226,7 +230,7 @@ func (r *runner) build(ev event, committed *snap) []*built {
 		}
 		return committed.Acc[k].NatNonce
 	}
-	store, killc := r.store, r.killc
+	store, killc, factory := r.store, r.killc, r.factory
 	var out []*built
 	zero := harness.Amt("0")
 	for _, o := range ev.Ops {
@@ -361,6 +365,41 @@ func (r *runner) build(ev event, committed *snap) []*built {
 				}
 				b.to = to
 				b.spec = xch.OLVMCall(r.w, from, ethcmn.BytesToAddress(to), n, val, arg)
+			case "create-factory":
+				addr := keys.Address(xch.ContractAddr(from, nonceOf(from)).Bytes())
+				b.to = addr
+				r.tracked(addr, "contract-address")
+				b.spec = xch.OLVMCreate(r.w, from, n, zero, xch.InitCode(factoryRuntime))
+				factory = addr
+			case "factory-child-reverts", "factory-child-ok":
+				if factory == nil {
+					b.skip = true // no factory deployed (or deployed by this very block: its address is tracked from now on)
+					break
+				}
+				b.fact = 1
+				mode := int64(0)
+				if o.Kind == "factory-child-ok" {
+					b.fact, mode = 2, 1
+				}
+				// the addresses the factory's next creations can get: whatever its nonce is by then, the
+				// address really used is among the tracked ones (the effect check reads the nonce it had)
+				fn := committed.Acc[addrText(factory)].NatNonce
+				if fn == 0 {
+					fn = 1 // deployed by this very block: a contract starts with nonce 1
+				}
+				for k := uint64(0); k < 4; k++ {
+					r.tracked(keys.Address(ethcrypto.CreateAddress(ethcmn.BytesToAddress(factory), fn+k).Bytes()), "contract-address")
+				}
+				used := uint64(0)
+				for _, e := range out {
+					if e.fact > 0 && !e.skip {
+						used++
+					}
+				}
+				child := ethcrypto.CreateAddress(ethcmn.BytesToAddress(factory), fn+used)
+				b.to, b.value = factory, olt(3)
+				b.spec = xch.OLVMCall(r.w, from, ethcmn.BytesToAddress(factory), n, harness.OLTUnits(3), append(ethcmn.LeftPadBytes(child.Bytes(), 32), xch.Word(mode)...))
+				b.child = keys.Address(child.Bytes())
 			case "kill":
 				to := killc
 				b.kills = to != nil
@@ -393,6 +432,25 @@ func (r *runner) build(ev event, committed *snap) []*built {
 		out = append(out, b)
 	}
 	return out
+}
+
+// factoryRuntime: call(gas, calldata[0:32], 1 OLT); then create(2 OLT, init) where init is
+// "PUSH1 0 PUSH1 0 REVERT" if calldata[32:64] == 0 and "PUSH1 0 PUSH1 0 RETURN" if it is 1.
+var factoryRuntime = []byte{
+	0x60, 0x00, 0x60, 0x00, 0x60, 0x00, 0x60, 0x00, // out size, out offset, in size, in offset
+	0x67, 0x0d, 0xe0, 0xb6, 0xb3, 0xa7, 0x64, 0x00, 0x00, // PUSH8 1 OLT
+	0x60, 0x00, 0x35, // calldata[0:32]: the recipient
+	0x5a, 0xf1, 0x50, // GAS CALL POP
+	0x60, 0x20, 0x35, // mode
+	0x60, 0x0a, 0x02, // mode * 10
+	0x60, 0xfd, 0x03, // 0xfd - mode*10 : REVERT (0xfd) or RETURN (0xf3)
+	0x64, 0x60, 0x00, 0x60, 0x00, 0x00, // PUSH5 "PUSH1 0 PUSH1 0 <00>"
+	0x01,             // ADD: the init code, right-aligned in the word
+	0x60, 0x00, 0x52, // MSTORE at 0 -> memory[27:32]
+	0x60, 0x05, 0x60, 0x1b, // size 5, offset 27
+	0x67, 0x1b, 0xc1, 0x6d, 0x67, 0x4e, 0xc8, 0x00, 0x00, // PUSH8 2 OLT
+	0xf0, 0x50, // CREATE POP
+	0x00,
 }
 
 func (r *runner) role(a string) string {
@@ -621,6 +679,37 @@ func (r *runner) checkEffect(b *built, res harness.TxRes, before, after *snap) {
 			r.count("selfdestruct_with_balance")
 		}
 	}
+	var extra []keys.Address
+	if b.fact > 0 && ok {
+		// 1 OLT goes to the address named in the call data; the creation (at the address derived from the
+		// factory's nonce BEFORE the transaction) keeps its endowment of 2 OLT iff its init code returned
+		created := keys.Address(ethcrypto.CreateAddress(ethcmn.BytesToAddress(b.to), before.Acc[addrText(b.to)].NatNonce).Bytes())
+		want := map[string]*big.Int{addrText(b.child): olt(1)}
+		wantRecipient.Sub(wantRecipient, olt(1))
+		if b.fact == 2 {
+			wantRecipient.Sub(wantRecipient, olt(2))
+			if w, ok := want[addrText(created)]; ok {
+				w.Add(w, olt(2))
+			} else {
+				want[addrText(created)] = olt(2)
+			}
+		}
+		r.count("factory_call_executed")
+		if !created.Equal(b.child) {
+			r.count("factory_call_forwarded_to_another_address_than_the_creation")
+		}
+		for _, a := range []keys.Address{b.child, created} {
+			extra = append(extra, a)
+			if _, tracked := after.Acc[addrText(a)]; !tracked {
+				r.count("factory_address_not_tracked")
+				continue
+			}
+			if d := sub(delta(a), want[addrText(a)]); d.Sign() != 0 {
+				r.violate(fmt.Sprintf("C17|recipient-credit|op=%s|status=%s|inner-recipient-gets-%s", kind, statusText(ok), signWord(d)),
+					fmt.Sprintf("%s (address of the factory's creation / named in the call data) changed by %v, expected %v", addrText(a), delta(a), want[addrText(a)]))
+			}
+		}
+	}
 	if selfSend {
 		wantSender.Add(wantSender, wantRecipient)
 	}
@@ -654,7 +743,14 @@ func (r *runner) checkEffect(b *built, res harness.TxRes, before, after *snap) {
 			r.violate(fmt.Sprintf("C17|contract-address|op=%s", kind), fmt.Sprintf("contract created at %x, reference says %x", st.contract, b.to.Bytes()))
 		}
 	}
-	others(b.from, b.to)
+	others(append([]keys.Address{b.from, b.to}, extra...)...)
+}
+
+func statusText(ok bool) string {
+	if ok {
+		return "ok"
+	}
+	return "reverted"
 }
 
 // block runs one event with snapshots between the consensus calls.
@@ -717,6 +813,8 @@ func (r *runner) block(ev event) error {
 					r.store = b.to
 				case "create-kill":
 					r.killc = b.to
+				case "create-factory":
+					r.factory = b.to
 				case "kill":
 					if r.killc != nil && b.to.Equal(r.killc) {
 						r.killc = nil
@@ -835,7 +933,7 @@ func (r *runner) stateKey(dump []harness.KV) string {
 			fmt.Fprintf(h, "%d:%s=%d:%s;", len(kv.K), kv.K, len(kv.V), kv.V)
 		}
 	}
-	fmt.Fprintf(h, "|store=%x|kill=%x|last=%v", r.store, r.killc, r.last != nil)
+	fmt.Fprintf(h, "|store=%x|kill=%x|factory=%x|last=%v", r.store, r.killc, r.factory, r.last != nil)
 	return hex.EncodeToString(h.Sum(nil)[:14])
 }
 
